@@ -36,7 +36,7 @@ PROPS['C12'] = dict(
     bounded_quick=[('header', 'that the state behind the intact header is COMPLETE (its pages were not recycled by the newest commit) needs the tree layer and the whole commit path, outside the verifier\'s reach as one argument; the oracle damages one header page of files with 0..3 commits and requires contents, DB::check() and a further commit')],
     level='proof',
     composition='Verus lemmas L4: lemma_single_byte_damage_detected / lemma_hash_field_damage_detected (meta unit, from the proved FNV-1a sensitivity lemmas), lemma_fallback_to_intact_slot / lemma_newest_wins (db unit)',
-    units=['meta', 'db', 'freelist', 'open', 'commit'],
+    units=['meta', 'db', 'freelist', 'open', 'commit', 'nodeio'],
     kani_quick=['layout'],
     explanation='DBInner::open (unit open): on a file with one intact header opening fails only when the operating system refuses the lock or the mapping (never a rejection or panic derived from the other slot). Header damage falls back: DBInner::meta returns exactly select_header (newest slot that is tagged META and whose checksum '
                 'matches; current format first, then legacy) with the other slot ARBITRARY, never panics under that precondition (M3); '
@@ -49,9 +49,9 @@ PROPS['C12'] = dict(
 )
 
 PROPS['C15'] = dict(
-    bounded_quick=[('checker', 'files written by the pinned release hold arbitrary values in the bytes the layout leaves unassigned (padding behind the page type and the entry kind); that the current reader ignores them is a statement about every file of the old writer, which no golden file is available for: cex/checker.rs scribbles over all padding bytes of healthy files and requires identical contents, check() and a further commit')],
+    bounded_quick=[('history', 'what reaches the file at page sizes that are not a power of two (1032, 3000: the buffer a page run is written from, growth in 8 MiB steps, reopen) is the product of the allocator, the serialiser and the commit; cex/history.rs replays seeded histories under those page sizes with reopen, check() and a reference map'), ('checker', 'files written by the pinned release hold arbitrary values in the bytes the layout leaves unassigned (padding behind the page type and the entry kind); that the current reader ignores them is a statement about every file of the old writer, which no golden file is available for: cex/checker.rs scribbles over all padding bytes of healthy files and requires identical contents, check() and a further commit')],
     level='proof',
-    units=['meta', 'db', 'open', 'writenode'],
+    units=['meta', 'db', 'open', 'writenode', 'freelist', 'nodeio', 'commit'],
     kani_quick=['layout', 'frombuf'],
     explanation='Files written by the current code conform to the layout the readers expect: Page::write_node (unit writenode) writes the page header (kind, count) and, for every entry, an element header whose offset and lengths are the ones LeafElement / BranchElement::key / value read back (offsets pinned by Kani k1_element_layout / k1_payload_addressing). '
                 'The golden files are replaced by the pinned layout written into the contracts: K1 pins every field offset/size/tag of Page, '
@@ -70,7 +70,7 @@ A_PAGEMUT = 'in-memory page construction (prelude/pagemut.rs): the header record
 PROPS['C02'] = dict(
     level='proof',
     composition='MACHINE-CHECKED: theorem_crash_atomicity / corollary_durable_after_ok (unit crash, prelude/crash_spec.rs) from the clause predicates (w1)-(w3) of write_data (lemma_clauses_from_contract) and the recovery oracle select_header of DBInner::meta; remaining paper steps: allocated pages are disjoint from the old tree (T1/F1 + INV-live, lemma L2). H1 (a torn header slot is valid only if complete or unchanged) is the theorem\'s hypothesis and is FALSE in one reachable state: the first commit after a recovery from a torn header write reuses the dead commit\'s transaction id and slot (known finding E14, reproduced by cex_commit_two_power_losses on every run)',
-    units=['commit', 'freelist', 'meta', 'db', 'crash', 'open'],
+    units=['commit', 'freelist', 'meta', 'db', 'crash', 'open', 'nodeio'],
     kani_quick=['layout'],
     bounded_quick=[('commit', 'H1, the hypothesis of the crash theorem (a header slot caught half-written is valid only if complete or unchanged), is a statement about the checksum and about what the slot held BEFORE the write; it cannot be a postcondition of any function.  cex/commit.rs builds the crash images of real commits (every prefix of the writes, subsets of the unsynced writes, the header torn at 8-byte words, also across TWO consecutive power losses) and reopens each; where H1 fails on the real code (finding E14) the image is reported under its own key')],
     explanation='Crash atomicity: TxInner::write_data is verified on its real body against a file stand-in whose every operation may fail: '
@@ -87,7 +87,7 @@ PROPS['C02'] = dict(
 )
 PROPS['C11'] = dict(
     level='proof',
-    units=['commit', 'freelist', 'open'],
+    units=['commit', 'freelist', 'open', 'nodeio'],
     explanation='I/O errors in commit: every seek/write_all/flush/sync_all/metadata/resize in write_data may return Err in the stand-in; the `?` on each is the proof '
                 'that the error is propagated and nothing panics (all arithmetic/bounds obligations discharged under the stated size bound). '
                 '(w4a): an Err return after the header write can only come from the two known exits; (w4b)/(w4c) are the known finding E2.',
@@ -130,7 +130,7 @@ PROPS['C06'] = dict(
 PROPS['C16'] = dict(
     bounded_quick=[('history', 'whole-history behaviour under different open options: the tree layer (split / merge thresholds depend on the page size) is outside the verifier\'s reach; cex/history.rs replays seeded histories under page sizes 1024/1032/3000/4096/16384, 4 or 64 initial pages, strict mode off/on')],
     level='proof',
-    units=['open', 'freelist', 'commit', 'split', 'check'],
+    units=['open', 'freelist', 'commit', 'split', 'check', 'nodeio'],
     kani_quick=['frombuf'],
     explanation='Open options: for EVERY page size and page count the builder accepts. OpenOptions::pagesize returns only for sizes >= 1024 that are multiples of 8 (the '
                 'documented panics are modelled as divergence, so removing a check is a failed postcondition), num_pages only for >= 4; OpenOptions::open calls init_file / DBInner::open '
